@@ -22,7 +22,9 @@ CONSTANTS NS,     \* number of mobile sites
           Jumps,  \* sequence of [i, j, lo, hi, rev] : transition i->j sums interactions lo+1..hi; rev = reverse jump
           Inst,   \* sequence of [sites |-> Seq(site), val |-> Int] : brute-force cluster instances
           Moves,  \* set of <<occsites, unoccsites>> (sequences) tried as trial moves / updates
-          Starts  \* set of occupations (Seq) used by Start; {} means all
+          Starts, \* set of occupations (Seq) used by Start; {} means all
+          Alt     \* vacancy mode: Alt[n] = tables [Mem, Val, NE, Jumps, r] of the sampler whose vacancy sits at the
+                  \* end point of jump n, r = index of the reverse jump in those tables; <<>> when unused
 
 VARIABLES occ, cnt, occset, unoccset, obs
 
@@ -60,14 +62,17 @@ Transitions(o, c) == [n \in DOMAIN Jumps |-> IF Allowed(o, n) THEN <<1, Barrier(
 ObsOf(o, c) == [E |-> Energy(c), T |-> Transitions(o, c)]
 
 \* deltaE_trial: the method's algorithm
-DCount(o, os, us, m) ==
-    SumTo(Len(os), LAMBDA k : IF o[os[k]] = 0 THEN Mult(os[k], m) ELSE 0)
-  - SumTo(Len(us), LAMBDA k : IF o[us[k]] = 1 THEN Mult(us[k], m) ELSE 0)
+\* (the dictionary dclustercount of the code is the function d below, restricted to the touched entries)
+Bump(f, i, by) == FoldLeft(LAMBDA g, m : [g EXCEPT ![m] = @ + by], f, SI[i])
 DeltaE(o, c, os, us) ==
-  SumTo(NE, LAMBDA m : LET d == DCount(o, os, us, m) IN
-                        IF d = 0 THEN 0
-                        ELSE IF c[m] = 0 THEN -Val[m]
-                        ELSE IF c[m] = d THEN Val[m] ELSE 0)
+  LET zero == [m \in 1..NI |-> 0]
+      d1 == FoldLeft(LAMBDA f, i : IF o[i] = 0 THEN Bump(f, i, 1) ELSE f, zero, os)
+      d  == FoldLeft(LAMBDA f, i : IF o[i] = 1 THEN Bump(f, i, -1) ELSE f, d1, us)
+      touched == SetToSeq({m \in UNION {ToSet(SI[os[k]]) : k \in DOMAIN os}
+                                 \cup UNION {ToSet(SI[us[k]]) : k \in DOMAIN us} : m <= NE})
+  IN FoldLeft(LAMBDA acc, m : acc + (IF d[m] = 0 THEN 0
+                                     ELSE IF c[m] = 0 THEN -Val[m]
+                                     ELSE IF c[m] = d[m] THEN Val[m] ELSE 0), 0, touched)
 
 \* update: sites are processed one at a time, occupations first
 Occupy(st, i) ==
@@ -130,4 +135,24 @@ DetailedBalance ==
           /\ Jumps[r].i = Jumps[n].j /\ Jumps[r].j = Jumps[n].i
           /\ Allowed(st.occ, r)
           /\ Barrier(cnt, n) - Barrier(st.cnt, r) = Energy(st.cnt) - Energy(cnt)
+
+\* ---- the same evaluation rules on an arbitrary table record (used for the moved-vacancy samplers)
+CntOfT(T, o) == [m \in 1..Len(T.Mem) |-> Cardinality({q \in DOMAIN T.Mem[m] : o[T.Mem[m][q]] = 0})]
+EnergyT(T, c) == SumTo(T.NE, LAMBDA m : IF c[m] = 0 THEN T.Val[m] ELSE 0)
+BarrierT(T, c, n) == FoldLeft(LAMBDA a, m : a + (IF c[m] = 0 THEN T.Val[m] ELSE 0), 0,
+                              [k \in 1..(T.Jumps[n].hi - T.Jumps[n].lo) |-> T.Jumps[n].lo + k])
+
+\* C34 (vacancy): the vacancy at Vac exchanges with the atom at j; the final configuration is described
+\* by the sampler built with the vacancy at j
+DetailedBalanceVac ==
+  Vac # 0 =>
+    \A n \in DOMAIN Jumps :
+       LET T == Alt[n]
+           j == Jumps[n].j
+           o2 == [occ EXCEPT ![Vac] = occ[j], ![j] = -1]
+           c2 == CntOfT(T, o2)
+       IN /\ Jumps[n].i = Vac
+          /\ T.r \in DOMAIN T.Jumps
+          /\ T.Jumps[T.r].i = j /\ T.Jumps[T.r].j = Vac
+          /\ Barrier(cnt, n) - BarrierT(T, c2, T.r) = EnergyT(T, c2) - Energy(cnt)
 =============================================================================
